@@ -113,6 +113,7 @@ pub fn generate(prop: &str, tier: &str, seed: u64, w: &mut dyn Write) {
         "C04" => crate::gen_range::gen_c04(&mut o, tier, seed),
         "C05" => { crate::gen_sigma::gen_c05(&mut o, tier, seed); crate::gen_range::gen_range_new(&mut o, tier, seed, true) }
         "C06" => gen_c06(&mut o, tier, seed),
+        "C07" => crate::gen_bind::gen_c07(&mut o, tier, seed),
         "C08" => crate::gen_enc::gen_c08(&mut o, tier, seed),
         "C09" => crate::gen_enc::gen_c09(&mut o, tier, seed),
         "C11" => crate::gen_enc::gen_c11(&mut o, tier, seed),
